@@ -308,11 +308,14 @@ impl Check for C12 {
             "ecma_count_zero".into(),
             "ecma_count_max".into(),
             "truncation_rejected".into(),
-            "truncation_decoded_to_prefix".into(),
             "markers_unsupported_executed".into(),
             "markers_supported_executed".into(),
             "fixed_decoder_vectors".into(),
         ]
+    }
+    fn soft_counters(&self, _tier: Tier) -> Vec<String> {
+        // whether a truncated array is decoded to a prefix or rejected is the decoder's policy
+        vec!["truncation_decoded_to_prefix".into()]
     }
     fn exhaustive_part(&self, _tier: Tier) -> Option<String> {
         Some("all 256 marker bytes at three value positions; every truncation point of each generated encoding of <= 512 bytes".to_string())
